@@ -250,6 +250,21 @@ func (fl *Flow) store(st *ssa.Store) {
 					if ld, ok := r.(*ssa.UnOp); ok && ld.Op == token.MUL {
 						fl.Add(ld)
 					}
+					if mc, ok := r.(*ssa.MakeClosure); ok {
+						// the variable holding the value is captured: the closure can use it after the function returns
+						kind := "closure"
+						if mr := mc.Referrers(); mr != nil {
+							for _, u := range *mr {
+								switch u.(type) {
+								case *ssa.Go:
+									kind = "go"
+								case *ssa.Defer:
+									kind = "defer"
+								}
+							}
+						}
+						fl.Sinks = append(fl.Sinks, FlowSink{Kind: kind, Instr: mc, Via: st.Val, Note: "captured variable " + a.Comment})
+					}
 					if mc, ok := r.(*ssa.MakeClosure); ok && fl.Interproc {
 						// captured by reference: loads through the free variable
 						fn := mc.Fn.(*ssa.Function)
